@@ -40,9 +40,25 @@ def identity_step_stub(interp, args, kwargs):
     return args[1]
 
 
+TWO_CHANNEL = {"Wave", "GrayScott"}
+VELOCITY_3D = {"NavierStokesVelocity", "KolmogorovFlowVelocity"}
+
+
+def _documented_channels(cls, D, flags):
+    """channel count of the documented state (class docstrings / stepper overview)"""
+    if "single_channel" in flags:
+        return 1 if flags["single_channel"] else D
+    if cls.name in TWO_CHANNEL:
+        return 2
+    if cls.name in VELOCITY_3D:
+        return 3
+    return 1
+
+
 def run(tier="quick", only_key=None):
     ck = Check(PROP, LEVEL, tier, only_key)
     ck.rule("call-guard", "__call__ of every exported stepper (and RepeatedStepper, Poisson) rejects a state with a wrong channel count, an extra batch axis, a missing axis or unequal axis lengths with ValueError, and accepts the correct shape returning the same shape")
+    ck.rule("channels", "the state every exported stepper accepts has the documented number of channels: 1 for the scalar equations, D (or 1 with single_channel=True) for the vector convection family, 2 for the wave (height, velocity) and Gray-Scott systems, 3 for the 3-D velocity formulation")
     ck.rule("call-override", "no exported stepper overrides __call__ without a shape guard (who-may-override)")
     ck.rule("operator-shape", "BaseStepper.__init__ rejects a linear operator whose shape is neither (1,...) nor (C,...)")
     ck.rule("restriction", "documented dimension / parity / option restrictions raise ValueError")
@@ -65,6 +81,16 @@ def run(tier="quick", only_key=None):
             ck.ok("call-override", key + "#override-exercised")
         dims, rej = catalog.allowed_dims(it, cls)
         for D in dims:
+            for fl in (list(catalog.flag_rows(cls)) or [{}]):
+                if "single_channel" not in fl and fl != (list(catalog.flag_rows(cls)) or [{}])[0]:
+                    continue
+                of = catalog.build(it, cls, D, **fl)
+                want = _documented_channels(cls, D, fl)
+                ckey = f"{cls.qual}#channels#D={D},{ {k: v for k, v in fl.items() if k == 'single_channel'} }"
+                if of.f["num_channels"] == want:
+                    ck.ok("channels", ckey)
+                else:
+                    ck.fail("channels", ckey, loc(cls.find("__init__")), f"{pub} in {D}D expects states with {of.f['num_channels']} channel(s); the documented state has {want}")
             o = catalog.build(it, cls, D)
             Cn = o.f["num_channels"]
             at = loc(own)
